@@ -29,7 +29,7 @@ func zzAnyInt(name string) sdk.Int {
 func ZZ_C05_EndBlockEvent() {
 	o := keeper.ZZStateOpts{MaxPool: 0, MaxBatches: 1, MaxPerBatch: 1, ConcreteIds: true, Chains: []types.ChainID{"ethereum"}}
 	if vrt.Thorough() {
-		o = keeper.ZZStateOpts{MaxPool: 1, MaxBatches: 1, MaxPerBatch: 1, ConcreteIds: true, DecChoice: true} // decimals {6,18,24}; symbolic 0..24 or two transfers per batch: > 25 min
+		o = keeper.ZZStateOpts{MaxPool: 0, MaxBatches: 1, MaxPerBatch: 1, ConcreteIds: true, DecChoice: true} // decimals {6,18,24}; a pool entry, symbolic decimals or two transfers per batch: > 25 min
 	}
 	st := keeper.ZZBuildState(o)
 	env := st.Env()
@@ -102,7 +102,7 @@ func ZZ_C05_EndBlockExpiry() {
 func ZZ_C05_BeginBlock() {
 	o := keeper.ZZStateOpts{MaxPool: 1, MaxBatches: 1, MaxPerBatch: 1, ConcreteIds: true, Chains: []types.ChainID{"ethereum"}}
 	if vrt.Thorough() {
-		o = keeper.ZZStateOpts{MaxPool: 2, MaxBatches: 2, MaxPerBatch: 1}
+		o = keeper.ZZStateOpts{MaxPool: 1, MaxBatches: 2, MaxPerBatch: 1}
 	}
 	st := keeper.ZZBuildState(o)
 	env := st.Env()
